@@ -72,6 +72,11 @@ func shardC19(c *Ctx, shard, nshards int) {
 	log.SetOutput(io.Discard) // the renderers log warnings
 	n := c.Pick(480, 4000)
 	maxCells := c.Pick(28, 56)
+	for i := 0; i < c.Pick(16, 200); i++ {
+		if i%nshards == shard {
+			c19Reuse(c, i)
+		}
+	}
 	for i := 0; i < n; i++ {
 		if i%nshards != shard {
 			continue
@@ -206,6 +211,91 @@ func shardC19(c *Ctx, shard, nshards int) {
 		}
 		if !same {
 			c.Violate("", fmt.Sprintf("dc-nondeterministic %s: two runs produced different triangle sequences (%d vs %d triangles)", tag, len(ts), len(ts2)), cs)
+		}
+	}
+}
+
+// c19Reuse renders a sequence of different shapes over one fixed sampled box with ONE renderer value and compares each
+// result with a fresh renderer's: a renderer must not carry state from one render into the next.
+func c19Reuse(c *Ctx, idx int) {
+	r := c.Rng("reuse", idx)
+	cells := r.IR(10, 20)
+	box := sdf.Box3{Min: v3.Vec{X: -2, Y: -2, Z: -2}, Max: v3.Vec{X: 2, Y: 2, Z: 2}}
+	mk := func(k int) (sdf.SDF3, string) {
+		switch k % 4 {
+		case 0:
+			s, _ := sdf.Sphere3D(1)
+			return s, "sphere(1)"
+		case 1:
+			s, _ := sdf.Sphere3D(1)
+			t := v3.Vec{X: r.R(0.2, 0.6), Y: r.R(-0.3, 0.3)}
+			return sdf.Transform3D(s, sdf.Translate3d(t)), fmt.Sprintf("sphere(1) at %v", t)
+		case 2:
+			b, _ := sdf.Box3D(v3.Vec{X: 2, Y: 2, Z: 2}, 0)
+			a := r.R(0.2, 1.2)
+			return sdf.Transform3D(b, sdf.Rotate3d(v3.Vec{X: 1, Y: 1}.Normalize(), a)), fmt.Sprintf("cube(2) rot %.3g", a)
+		}
+		cy, _ := sdf.Cylinder3D(2.4, 0.8, 0.2)
+		return cy, "cylinder(2.4,0.8,0.2)"
+	}
+	sharedV2 := dc.NewDualContouringDefault(cells)
+	sharedV1 := dc.NewDualContouringV1(-1, 0, true)
+	collectV2 := func(rd *dc.DualContouringV2, s sdf.SDF3) []*sdf.Triangle3 {
+		var out []*sdf.Triangle3
+		ch := make(chan []*sdf.Triangle3)
+		done := make(chan struct{})
+		go func() {
+			for ts := range ch {
+				out = append(out, ts...)
+			}
+			close(done)
+		}()
+		rd.Render(s, ch)
+		close(ch)
+		<-done
+		return out
+	}
+	collectV1 := func(rd *dc.DualContouringV1, s sdf.SDF3) []*sdf.Triangle3 {
+		var out []*sdf.Triangle3
+		ch := make(chan *sdf.Triangle3)
+		done := make(chan struct{})
+		go func() {
+			for t := range ch {
+				out = append(out, t)
+			}
+			close(done)
+		}()
+		rd.Render(s, cells, ch)
+		close(ch)
+		<-done
+		return out
+	}
+	same := func(a, b []*sdf.Triangle3) bool {
+		if len(a) != len(b) {
+			return false
+		}
+		for i := range a {
+			if *a[i] != *b[i] {
+				return false
+			}
+		}
+		return true
+	}
+	for step := 0; step < 5; step++ {
+		s, desc := mk(step + idx)
+		w := &fieldSDF3{bb: box, fn: s.Evaluate}
+		a2, b2 := collectV2(sharedV2, w), collectV2(dc.NewDualContouringDefault(cells), w)
+		a1, b1 := collectV1(sharedV1, w), collectV1(dc.NewDualContouringV1(-1, 0, true), w)
+		c.Eval(2)
+		cs := c19Case{idx, "reused", cells, fmt.Sprintf("step %d: %s", step, desc), box}
+		if !same(a2, b2) {
+			c.Violate("", fmt.Sprintf("dc-history-dependent v2 cells=%d step %d (%s): a renderer that rendered other shapes before gives %d triangles, a fresh one %d (or different coordinates)", cells, step, desc, len(a2), len(b2)), cs)
+		}
+		if !same(a1, b1) {
+			c.Violate("", fmt.Sprintf("dc-history-dependent v1 cells=%d step %d (%s): reused renderer %d triangles, fresh %d", cells, step, desc, len(a1), len(b1)), cs)
+		}
+		if step > 0 {
+			c.Distinct(fmt.Sprintf("reuse/%d/%d/%s", idx, step, desc))
 		}
 	}
 }
